@@ -146,7 +146,11 @@ class StateMachine(metaclass=StateMachineMetaclass):
 
         self._register_callbacks([])
         self.add_listener(*listeners.keys())
+        # The listeners may bring async callbacks: select the engine only after they are attached,
+        # and restore a pending initial activation (a not yet activated async machine).
+        self._callbacks.async_or_sync()
         self._engine = self._get_engine(rtc)
+        self._engine.start()
 
     def _get_initial_state(self):
         initial_state_value = (
